@@ -1,7 +1,7 @@
 CONSTANTS
   Variant = "unescaped_target"
   Family = "redirect"
-  Size = "q"
+  Size = "m"
 INIT Init
 NEXT Next
 CHECK_DEADLOCK FALSE
